@@ -35,7 +35,7 @@ Print Assumptions c14_prompt_refuted.
 
 (* the complement: a waiter whose reply has been processed and that cannot move is in exactly that window *)
 Theorem c14_only_this_window : forall servers s w q, reach (init servers) s ->
-  myseq (thrs s w) = Some q -> ready s q = true -> tpc (thrs s w) <> Returned -> step LStep w s = None ->
+  myseq (thrs s w) = Some q -> ready s q = true -> tpc (thrs s w) <> Returned -> tpc (thrs s w) <> TimedOut -> step LStep w s = None ->
   (tpc (thrs s w) = S2 /\ inbox s = []) \/ (tpc (thrs s w) = Asleep /\ exists h, will_notify (tpc (thrs s h)) = true).
 Proof. intros servers s w q R. apply blocked_only_in_window; [exact (invA_reach _ _ R)|exact (invB_reach _ _ R)]. Qed.
 Print Assumptions c14_only_this_window.
